@@ -87,6 +87,8 @@ class DeliveryMonitor(netsim.Monitor):
         if outcome == "done":
             return
         miss = self.missing(w)
+        if not miss:
+            return  # everything was delivered; not reaching quiescence is not C01's claim
         kinds = sorted(set(m.split(":")[-1].strip().split(" ")[0] if ":" in m else m.split(" ")[1] for m in miss))
         raise netsim.Violation(
             {"monitor": "liveness", "missing": kinds if miss else ["quiescence"]},
